@@ -1009,12 +1009,21 @@ Section Method.
 
   Definition ret {A} (v : res A) (f : A -> value) : res outcome := match v with Ok x => Ok (OReturn (f x)) | Err e => Err e end.
 
+  (* the arguments the emitted `deserialize` passes to the constructor: exactly the public names, in declaration order, each bound to
+     a value of the kind its instruction reads (an array: a list, or None when optional; a string field: a str or None) *)
+  Definition deser_args (is : list einstr) (args : list (string * value)) : Prop :=
+    map fst args = public_names is /\
+    forall i n k, In i is -> In (n, k) (instr_binds i) -> In n (instr_public i) -> exists v, assoc args n = Some v /\ kind_ok k v.
+  (* Cls(..) is the generated constructor, as far as `deserialize` can tell *)
+  Definition ctor_agrees (d : sdef) : Prop :=
+    forall args, deser_args (sd_body d) args -> ctor (sd_name d) args = init_model (sd_name d) (sd_body d) args.
+
   (* MAIN THEOREM (method body): def deserialize(reader) of the class with definition `d` is deser_body, for every reader state
-     and callee, provided Cls(..) is the generated constructor *)
-  Theorem render_deserialize_correct d ss r :
+     and callee, provided Cls(..) is the generated constructor (on the arguments this method passes: `ctor_agrees`) *)
+  Theorem render_deserialize_correct_gen d ss r :
     render_deserialize (sd_name d) (sd_body d) = Some ss ->
     static_ok_d (sd_body d) = true ->
-    (forall args, ctor (sd_name d) args = init_model (sd_name d) (sd_body d) args) ->
+    ctor_agrees d ->
     exists L', dexec_stmts ss [] r = (let '(r', v) := deser_body rec d r in (r', ret v (fun x => x), L')).
   Proof.
     unfold render_deserialize, static_ok_d. destruct (render_deser (sd_body d)) as [body|] eqn:Eb; [|discriminate].
@@ -1046,7 +1055,10 @@ Section Method.
       destruct (Hpub i n k Hin Hb) as [v [H1 [H2 H3]]]. exists v. split; [|split; assumption].
       rewrite Hvs; [exact H1|]. unfold public_names. apply in_flat_map. exists i. split; assumption. }
     unfold method_tail. rewrite dx_cons, dx_assign. cbn [PyStmtR.deval]. rewrite Hlook. cbn [rbind].
-    rewrite Hctor. unfold init_model. rewrite Hnames, strs_eqb_refl, Hinit.
+    rewrite Hctor.
+    2:{ split; [exact Hnames|]. intros i n k Hin Hb Hp. destruct (Hpub i n k Hin Hb) as [v [H1 [_ H3]]]. exists v. split; [|exact H3].
+        rewrite Hvs; [exact H1|]. unfold public_names. apply in_flat_map. exists i. split; assumption. }
+    unfold init_model. rewrite Hnames, strs_eqb_refl, Hinit.
     destruct (build_fields (sd_body d) dl) as [flds|e] eqn:Ebf; cbn [rbind].
     2:{ rewrite Hfin by (rewrite Hk2; exact Hocrm1). exists L2. reflexivity. }
     cbn [aliases]. set (obj := VObj (sd_name d) flds). set (L3 := (D_RESULT, obj) :: L2).
@@ -1063,16 +1075,29 @@ Section Method.
     - unfold L4, L3. rewrite !assoc_cons_ne by discriminate. rewrite Hk2. exact Hocrm1.
   Qed.
 
+  Theorem render_deserialize_correct d ss r :
+    render_deserialize (sd_name d) (sd_body d) = Some ss ->
+    static_ok_d (sd_body d) = true ->
+    (forall args, ctor (sd_name d) args = init_model (sd_name d) (sd_body d) args) ->
+    exists L', dexec_stmts ss [] r = (let '(r', v) := deser_body rec d r in (r', ret v (fun x => x), L')).
+  Proof. intros Hr Hst Hc. apply render_deserialize_correct_gen; [exact Hr | exact Hst | intros args _; apply Hc]. Qed.
+
   (* ... as a function call *)
+  Corollary render_deserialize_call_gen d ss r :
+    render_deserialize (sd_name d) (sd_body d) = Some ss ->
+    static_ok_d (sd_body d) = true ->
+    ctor_agrees d ->
+    dcall rec ctor ss r = deser_body rec d r.
+  Proof.
+    intros Hr Hst Hc. unfold dcall. destruct (render_deserialize_correct_gen d ss r Hr Hst Hc) as [L' Hx]. rewrite Hx.
+    destruct (deser_body rec d r) as [r' [v|e]]; reflexivity.
+  Qed.
   Corollary render_deserialize_call d ss r :
     render_deserialize (sd_name d) (sd_body d) = Some ss ->
     static_ok_d (sd_body d) = true ->
     (forall args, ctor (sd_name d) args = init_model (sd_name d) (sd_body d) args) ->
     dcall rec ctor ss r = deser_body rec d r.
-  Proof.
-    intros Hr Hst Hc. unfold dcall. destruct (render_deserialize_correct d ss r Hr Hst Hc) as [L' Hx]. rewrite Hx.
-    destruct (deser_body rec d r) as [r' [v|e]]; reflexivity.
-  Qed.
+  Proof. intros Hr Hst Hc. apply render_deserialize_call_gen; [exact Hr | exact Hst | intros args _; apply Hc]. Qed.
 End Method.
 
 (* ---------------------------------------------------------------- soundness of the executable comparison *)
@@ -1234,15 +1259,20 @@ Qed.
 
 (* what a clean run of the harness check (Model/RenderCheckD.d_render_class = []) on a class gives: the statements PARSED FROM THE
    SOURCE TEXT of its deserialize method, called as a function, compute deser_body - for every reader state and callee *)
+Theorem checked_class_correct_d_gen rec ctor enums d parsed_stmts r :
+  d_render_class enums d parsed_stmts = [] ->
+  ctor_agrees ctor d ->
+  dcall rec ctor parsed_stmts r = deser_body rec d r.
+Proof.
+  intros Hrc Hctor. destruct (d_render_class_inv enums d parsed_stmts Hrc) as [rs [Hrs [Her Hst]]].
+  rewrite <- (render_deserialize_call_gen rec ctor d rs r Hrs Hst Hctor). unfold dcall.
+  rewrite <- Her, d_erase_stmts_ok. reflexivity.
+Qed.
 Theorem checked_class_correct_d rec ctor enums d parsed_stmts r :
   d_render_class enums d parsed_stmts = [] ->
   (forall args, ctor (sd_name d) args = init_model (sd_name d) (sd_body d) args) ->
   dcall rec ctor parsed_stmts r = deser_body rec d r.
-Proof.
-  intros Hrc Hctor. destruct (d_render_class_inv enums d parsed_stmts Hrc) as [rs [Hrs [Her Hst]]].
-  rewrite <- (render_deserialize_call rec ctor d rs r Hrs Hst Hctor). unfold dcall.
-  rewrite <- Her, d_erase_stmts_ok. reflexivity.
-Qed.
+Proof. intros Hrc Hctor. apply (checked_class_correct_d_gen rec ctor enums); [exact Hrc | intros args _; apply Hctor]. Qed.
 
 (* ---------------------------------------------------------------- the class-level function: deser_struct *)
 Section Ext.
